@@ -42,8 +42,10 @@ SCENARIOS: list[dict[str, Any]] = [
     # owner releases while two pollers hold a copy of the id each (three parties on one per-invocation critical section)
     {"name": "release-race", "queue": [], "release_race": True, "pollers": [("B", 1), ("C", 1)], "mem_files": ("pynenc/orchestrator/mem_orchestrator.py",), "extras_first": True, "dfs": (2, 16, 2, 16),
      "mem_funcs": ("_atomic_status_transition", "_get_invocation_lock", "_interanl_atomic_status_transition")},
+    # (pure-Python container code the lock lookup may call into - weakref.py - yields as well: a lock table is only as atomic as its container)
     {"name": "dup-critical-section", "queue": ["x", "x"], "pollers": [("A", 2), ("B", 2)], "mem_files": ("pynenc/orchestrator/mem_orchestrator.py",), "dfs": (2, 4, 2, 4),
-     "mem_funcs": ("_atomic_status_transition", "_get_invocation_lock", "_interanl_atomic_status_transition")},
+     "stdlib_files": ("weakref",),
+     "mem_funcs": ("_atomic_status_transition", "_get_invocation_lock", "_interanl_atomic_status_transition", "setdefault", "__setitem__", "__getitem__", "get", "pop")},
     {"name": "release-race-all-lines", "queue": [], "release_race": True, "pollers": [("B", 1), ("C", 1)], "mem_files": ("pynenc/orchestrator/mem_orchestrator.py",), "extras_first": True, "dfs": (0, 0, 2, 16)},
 ]
 
@@ -232,7 +234,12 @@ def run_scenario(kind: str, sc: dict, policy: sched.Policy, clock: vclock.VClock
     env = setup_env(kind, sc, clock, shared)
     app = env.app
     files = tuple(sc.get("mem_files", MEM_FILES)) + (HISTORY_FILES if shared.get("trace_history") else ())
-    tf = sched.trace_file_set(*files) if kind == "mem" else sched.trace_file_set("pynenc/core_tasks.py", *(HISTORY_FILES[1:] if shared.get("trace_history") else ()))
+    _std = set()
+    for _m in sc.get("stdlib_files", ()):
+        import importlib
+
+        _std.add(importlib.import_module(_m).__file__)
+    tf = (sched.trace_file_set(*files) | _std) if kind == "mem" else sched.trace_file_set("pynenc/core_tasks.py", *(HISTORY_FILES[1:] if shared.get("trace_history") else ()))
     s = sched.Scheduler(policy, clock=clock, trace_files=tf, max_steps=60_000, quantum_us=0, trace_funcs=set(sc["mem_funcs"]) if (kind == "mem" and sc.get("mem_funcs")) else None)
     env.poll_errors = []
     # claim-window tracking for the non-triviality rule: a forced switch while some poller is inside get_invocations_to_run
